@@ -243,6 +243,36 @@ def check(ctx: Ctx, col: Collector, tier: str) -> None:
             (col.ok if good else col.bad)("C03.ATTR-TARGETS", key, repo.loc(VISITOR, asfi.node), f"_parse_attributes(lvalue, ..., is_static={static}) on every path" if good else "not parsed on some path",
                                           *([] if good else [f"an assignment to a {tcls} target below a {p} is not parsed into attributes (is_static={static}): those attributes vanish"]))
 
+    # in a constructor only members of the instance itself are attributes of the class (nothing is invented)
+    pafi = repo.function(VISITOR, f"{VCLS}._parse_attributes")
+    col.touched(pafi)
+
+    def var(is_self: bool, name: str) -> Obj:
+        return Obj("NameExpr", (("name", Const(name)), ("node", Obj("Var", (("is_self", Const(is_self)), ("name", Const(name)))))))
+
+    shapes = [("self.x", Obj("MemberExpr", (("name", Const("x")), ("expr", var(True, "self")))), 1),
+              ("parent.child (member of another object)", Obj("MemberExpr", (("name", Const("child")), ("expr", var(False, "parent")))), 0),
+              ("self.sub.deep (member of a member)", Obj("MemberExpr", (("name", Const("deep")), ("expr", Obj("MemberExpr", (("name", Const("sub")), ("expr", var(True, "self"))))))), 0),
+              ("index (local name inside a tuple target)", Obj("NameExpr", (("name", Const("index")), ("node", Obj("Var", (("is_self", Const(False)), ("name", Const("index"))))))), 0)]
+    for label, lv, want in shapes:
+        st = visitor_state((parent_obj("Module"), parent_obj("Class"), parent_obj("Constructor")))
+        st.facts["call:self._is_attribute_already_defined"] = False
+        outs = ctx.interp(pafi).run_function(pafi, {"self": Sym("self"), "lvalue": lv, "unanalyzed_type": Sym("unanalyzed_type"), "is_static": Const(False)}, st)
+        counts = set()
+        for o in outs:
+            if o.kind == "raise":
+                continue
+            already = any(k.startswith("truthy:") and "_is_attribute_already_defined" in k and v for k, v in o.facts)
+            if already:
+                continue
+            counts.add(sum(1 for e in o.effects if e.kind == "call" and e.target == "self._create_attribute"))
+        key = f"{VISITOR}::{VCLS}._parse_attributes::constructor-target::{label.split(' ')[0]}"
+        good = counts == {want}
+        (col.ok if good else col.bad)("C03.ATTR-TARGETS", key, repo.loc(VISITOR, pafi.node), f"{label}: {want} attribute(s)" if good else f"{label}: attributes created per path {sorted(counts)}, reference {want}",
+                                      *([] if good else [f"a constructor assignment to `{label}` creates {sorted(counts)} attribute(s) of the class instead of {want}: "
+                                                         + ("the instance attribute is lost" if want else "`parent.child = self`, `cfg.options.verbose = True` or `index, self.pos = 0, 1` in __init__ add "
+                                                            "attributes (child, verbose, index) the class does not declare")]))
+
     # ------------------------------------------------------------------ COVERAGE
     colls = [("_create_module_string", "module", "global_functions", "self._create_function_string", {"is_public": Const(True)}),
              ("_create_module_string", "module", "classes", "self._create_class_string", {"is_public": Const(True), "inherits_from_exception": Const(False)}),
